@@ -3,6 +3,7 @@ NEXT TNext
 CONSTANTS
   TplLo = 1
   TplHi = 1
+  SecondTpls = {}
   MaxStmts = 0
   MaxMods1 = 0
   MaxMods2 = 0
